@@ -596,9 +596,10 @@ impl<P: RuntimeProvider + Send + Sync> ZoneHandler for InMemoryZoneHandler<P> {
         let closest_proof = inner.closest_nsec(name);
 
         // we need the wildcard proof, i.e. the NSEC record that covers the wildcard at the closest
-        // encloser (RFC 4035 3.1.3.2), but make sure that it's still part of the zone. The closest
-        // encloser is the longest ancestor of the name that exists in the zone: it, or a name below
-        // it, owns a record. Such names follow it directly in the canonical order.
+        // encloser (RFC 4035 3.1.3.2) or, if that wildcard exists, the NSEC record that matches it
+        // and tells its types (RFC 4035 3.1.3.4), but make sure that it's still part of the zone.
+        // The closest encloser is the longest ancestor of the name that exists in the zone: it, or
+        // a name below it, owns a record. Such names follow it directly in the canonical order.
         let origin = self.origin();
         let mut next_closer = name.clone();
         while origin.zone_of(&next_closer.base_name()) {
@@ -619,12 +620,9 @@ impl<P: RuntimeProvider + Send + Sync> ZoneHandler for InMemoryZoneHandler<P> {
             origin.clone()
         };
 
-        // don't duplicate the record... and if the wildcard exists there is nothing to deny: a
-        // wildcard expansion only needs the proof that there is no closer match (RFC 4035 3.1.3.3)
+        // don't duplicate the record...
         let wildcard_proof = if wildcard != *name {
-            inner
-                .closest_nsec(&wildcard)
-                .filter(|rr_set| wildcard != LowerName::from(rr_set.name()))
+            inner.closest_nsec(&wildcard)
         } else {
             None
         };
